@@ -34,6 +34,10 @@ CLAIMED = {
             "Shows no state survives an API call and derived fields are re-derived before use, hence results depend only on current public fields and the bytes drawn in the call; covers all call sequences.",
             "Trusted: as C14. Not decided: user-supplied separator functions; caller reassigning exported package variables.",
             "DESIGN.md section 3 C15"),
+    "C18": ("interprocedural taint analysis (sources: draws and CSPRNG buffer; sinks: output/log/panic/error/global in package spg) over SSA + VTA call graph",
+            "Shows that no value derived from a draw can reach an output, log, panic message, error text or package variable of the library, for all recipes and streams including rejected candidates; every sink site is inventoried.",
+            "Trusted: foreign functions do not stash arguments in global state; go/ssa model. Not decided: control dependence, timing, what callers do with the Password.",
+            "DESIGN.md section 3 C18"),
 }
 
 NOT_APPLICABLE = {
